@@ -11,7 +11,11 @@ ENGINES = [{
 }]
 
 NOTES = ("Verdicts come only from P-layer clauses of the TLA+ specification evaluated by TLC on outputs of the real "
-         "code; see DESIGN.md sections 2, 5, 6.")
+         "code; see DESIGN.md sections 2, 5, 6 and the implementation record in section 13. Known findings (fixed / open) "
+         "are in /verif/known_findings.json; an open entry suppresses only violations whose failing clause is listed and "
+         "whose input satisfies the entry's TLA+ trigger predicate. Seeded changes used to test the machinery are in "
+         "/verif/seeded/. Extension modules beyond the 20 listed properties (./check X01 .. X05: pipeline composition, the "
+         "GenomicArray container, autobin/THetA, the CLI layer, plot data selection) are not registered here.")
 
 CHECKS = [
     {"id": "C06", "level": "model_checking",
